@@ -3,6 +3,9 @@ PROP = dict(
         module='kernel', pkg='multiboot', pkgname='multiboot', harness=['multiboot/c10_test.go'],
         n=dict(quick=1500, thorough=25000),
         anchors='C10.json', expr_imports=['Firefly.Gen.C10'],
+        # clients that receive pointers into the block: enumerate, run the real client, enumerate again
+        extra_runs=[dict(module='kernel', pkg='mm/pmm', pkgname='pmm', harness=['pmm/pmm_test.go', 'pmm/c10pmm_test.go'],
+                         test='TestVerifC10Pmm', n=dict(quick=40, thorough=1500))],
         nontrivial=r'^(M \d+ \| (done|stop) [1-9]|F \| ok \d|C \| ok [1-9]|E \| done [1-9]|T \d+ \| ok \d)',
         rule='one evaluation = one call of the real findTagByType / VisitMemRegions / GetFramebufferInfo(+field reads) / '
              'GetBootCmdLine / VisitElfSections (or a dump of the block after the calls) on a generated multiboot block placed '
